@@ -19,6 +19,23 @@ import (
 
 const Root = "/verif"
 
+// Repo is the tree under test: /repo, or a scratch worktree named by VERIF_REPO (used to try the
+// checks against seeded changes without touching /repo; run.sh then builds against that tree).
+func Repo() string {
+	if r := os.Getenv("VERIF_REPO"); r != "" {
+		return r
+	}
+	return "/repo"
+}
+
+// OutDir is where evidence and replay files go: /verif, or VERIF_OUT for scratch runs.
+func OutDir() string {
+	if r := os.Getenv("VERIF_OUT"); r != "" {
+		return r
+	}
+	return Root
+}
+
 // Finding is one entry of /verif/known_findings.json.
 type Finding struct {
 	Property string `json:"property"`
@@ -91,7 +108,7 @@ func New(id, tier string) *Run {
 	r.Deadline = r.Start.Add(budget)
 	if os.Getenv("VERIF_WORKER_PHASE") == "" && os.Getenv("VERIF_ISO_WORKER") == "" && !isReplay() {
 		// replay files belong to one run: drop those of earlier runs
-		old, _ := filepath.Glob(filepath.Join(Root, "replays", id, "*.json"))
+		old, _ := filepath.Glob(filepath.Join(OutDir(), "replays", id, "*.json"))
 		for _, f := range old {
 			_ = os.Remove(f)
 		}
@@ -265,7 +282,7 @@ func (r *Run) report(phase string, v explore.Violation, count int64) {
 	}
 	printed["V:"+v.Sig] = true
 	r.nviol++
-	dir := filepath.Join(Root, "replays", r.ID)
+	dir := filepath.Join(OutDir(), "replays", r.ID)
 	_ = os.MkdirAll(dir, 0o755)
 	path := filepath.Join(dir, fmt.Sprintf("%d.json", r.nviol))
 	b, _ := json.MarshalIndent(ReplayFile{Property: r.ID, Phase: phase, Choices: v.Choices, Kinds: v.Kinds, Sig: v.Sig, Msg: v.Msg, Detail: v.Detail}, "", " ")
@@ -405,8 +422,8 @@ func (r *Run) Finish() {
 		ev["assumptions"] = []string{}
 	}
 	b, _ := json.MarshalIndent(ev, "", " ")
-	_ = os.MkdirAll(filepath.Join(Root, "evidence"), 0o755)
-	evPath := filepath.Join(Root, "evidence", r.ID+".json")
+	_ = os.MkdirAll(filepath.Join(OutDir(), "evidence"), 0o755)
+	evPath := filepath.Join(OutDir(), "evidence", r.ID+".json")
 	if alt := os.Getenv("VERIF_EVIDENCE_OUT"); alt != "" {
 		evPath = alt // a sub-run (specially built binary) reports to its parent
 	}
